@@ -46,11 +46,7 @@ int main() {
 		const ll mv = c.more() ? c.next() : 0;
 		if (opts & 6) { o.add(-3); o.flush(); continue; } // special-predicate conversion belongs to C08
 		if (mv < -1 || mv > (ll)Potassco::atomMax) { o.add(-3); o.flush(); continue; } // setMaxVar beyond atomMax: outside the domain
-		Potassco::SmodelsInput::Options op;
-		if (opts & 1) op.enableClaspExt();
-		if (opts & 2) op.convertEdges();
-		if (opts & 4) op.convertHeuristic();
-		if (opts & 8) op.dropConverted();
+		Potassco::SmodelsInput::Options op = reuse::smodelsOptions(c, (opts & 1) != 0, (opts & 2) != 0, (opts & 4) != 0, (opts & 8) != 0);
 		const bool stepwise = (opts & 16) != 0;
 		std::istringstream is(in);
 		std::istringstream primer(std::string(primed ? reuse::smodelsPrimer(c, (opts & 1) != 0).text : ""));
